@@ -1,5 +1,5 @@
 (* C45 — the order used by the ring's sort, sorting facts, uniqueness of a sorted permutation. *)
-From Coq Require Import List NArith ZArith Arith Bool Lia Sorted Permutation ZifyN ZifyNat ZifyBool.
+From Coq Require Import List NArith ZArith Arith Bool Lia Sorted Permutation Orders Sorting.Mergesort ZifyN ZifyNat ZifyBool.
 From Verif.C45 Require Import Model.
 Import ListNotations.
 
@@ -38,11 +38,6 @@ Qed.
 Lemma bytes_cmp_refl : forall a, bytes_cmp a a = Eq.
 Proof. induction a; simpl; auto. rewrite N.compare_refl. auto. Qed.
 
-Lemma bytes_cmp_antisym : forall a b, bytes_cmp b a = CompOpp (bytes_cmp a b).
-Proof.
-  induction a as [|x a IH]; destruct b as [|y b]; simpl; auto.
-  rewrite (N.compare_antisym x y). destruct (N.compare x y); simpl; auto.
-Qed.
 
 Lemma bytes_cmp_lt_trans : forall a b c, bytes_cmp a b = Lt -> bytes_cmp b c = Lt -> bytes_cmp a c = Lt.
 Proof.
@@ -64,12 +59,6 @@ Proof.
   intro H. apply N.compare_eq in C. apply bytes_cmp_eq in H. congruence.
 Qed.
 
-Lemma entry_cmp_antisym : forall a b, entry_cmp b a = CompOpp (entry_cmp a b).
-Proof.
-  intros [h1 k1] [h2 k2]. unfold entry_cmp. simpl.
-  rewrite (N.compare_antisym h1 h2). destruct (N.compare h1 h2); simpl; auto.
-  apply bytes_cmp_antisym.
-Qed.
 
 Lemma entry_cmp_lt_trans : forall a b c, entry_cmp a b = Lt -> entry_cmp b c = Lt -> entry_cmp a c = Lt.
 Proof.
@@ -174,4 +163,20 @@ Proof.
   inversion S as [|? ? S' F]; subst.
   destruct (f x); auto. constructor; auto.
   rewrite Forall_forall in *. intros y Hy. apply filter_In in Hy. destruct Hy. auto.
+Qed.
+
+(* the model's sort (stdlib merge sort) *)
+Lemma msort_perm : forall l, Permutation (ESort.sort l) l.
+Proof. intro l. symmetry. apply ESort.Permuted_sort. Qed.
+
+Lemma msort_sorted : forall l, StronglySorted entry_le (ESort.sort l).
+Proof.
+  intro l. apply (ESort.StronglySorted_sort l).
+  intros a b c H1 H2. unfold is_true in *. eapply entry_le_trans; eauto.
+Qed.
+
+Lemma msort_isort : forall l, ESort.sort l = isort l.
+Proof.
+  intro l. apply sorted_perm_unique; auto using msort_sorted, isort_sorted.
+  rewrite msort_perm, isort_perm. auto.
 Qed.
